@@ -418,10 +418,15 @@ func (c *Float) Ident() string {
 			return fmt.Sprintf("0x%c%04X", hexPrefix, bits)
 		}
 		if c.X.IsInf() || !float.IsExact16(c.X) {
-			f, acc := binary16.NewFromBig(c.X)
-			if acc != big.Exact {
-				log.Printf("unable to represent floating-point constant %v of type %v exactly; please submit a bug report to llir/llvm with this error message", c.X, c.Typ)
+			// Round to the nearest half (e.g. of a constant created by
+			// NewFloat(types.Half, 0.1)); values beyond the range of half are
+			// rounded to infinity, values below it to zero or a subnormal.
+			x := c.X
+			if !x.IsInf() {
+				f64, _ := x.Float64()
+				x = roundToHalf(f64)
 			}
+			f, _ := binary16.NewFromBig(x)
 			bits := f.Bits()
 			return fmt.Sprintf("0x%c%04X", hexPrefix, bits)
 		}
